@@ -135,8 +135,35 @@ FamStorage(_z) ==
   { [Cfg(StoragePipe(pos, mask, TRUE), TimesOf(n), 0, nd, NoPrior) EXCEPT !.stored = st] :
       pos \in 1 .. 5, mask \in {-1}, n \in 1 .. MAXSTEPS, nd \in BOOLEAN, st \in {Stored0, PartialStored} }
 
+\* ---- family "opaque": models of unknown effect (anything in any bucket, or a failure)
+OpaquePipe(sa, sb) ==
+  [k \in 1 .. NG |->
+     CASE k = 2  -> ShapeModels(sa, "u", "opaque", "photon", 0)
+       [] k = 5  -> ShapeModels(sb, "v", "opaque", "pixel", 0)
+       [] OTHER  -> << >> ]
+FamOpaque(_z) ==
+  { Cfg(OpaquePipe(sa, sb), TimesOf(n), st, nd, NoPrior) :
+      sa \in {<<TRUE>>, <<FALSE, TRUE>>}, sb \in {<< >>, <<TRUE>>}, n \in 1 .. MAXSTEPS, st \in {0, 1}, nd \in BOOLEAN }
+\* what an opaque model may leave behind: pixel, charge and image vary, the rest stays
+OpaqueAfter(b) ==
+  { [b EXCEPT !["charge"] = ch, !["pixel"] = px, !["image"] = im] :
+      ch \in {0, 4}, px \in {0, 5}, im \in {EMPTY, 7} }
+
+\* ---- family "session": runs separated by reconfiguration of the same objects
+SessionPipe(sa, sb) ==
+  [k \in 1 .. NG |->
+     CASE k = 2  -> ShapeModels(sa, "p", "set", "photon", 1)
+       [] k = 5  -> ShapeModels(sb, "q", "add", "pixel", 2)
+       [] k = 9  -> << ImgWriter >>
+       [] OTHER  -> << >> ]
+FamSession(_z) ==
+  { Cfg(SessionPipe(sa, sb), TimesOf(n), 0, nd, NoPrior) :
+      sa \in {<<TRUE, FALSE>>}, sb \in {<<TRUE>>, <<FALSE, TRUE>>}, n \in 1 .. MAXSTEPS, nd \in BOOLEAN }
+
 CfgSet(_z) ==
-  CASE FAMILY = "subsets" -> FamSubsets(0)
+  CASE FAMILY = "opaque" -> FamOpaque(0)
+    [] FAMILY = "session" -> FamSession(0)
+    [] FAMILY = "subsets" -> FamSubsets(0)
     [] FAMILY = "pairs"   -> FamPairs(0)
     [] FAMILY = "sched"   -> FamSched(0)
     [] FAMILY = "writers" -> FamWriters(0)
@@ -145,7 +172,16 @@ CfgSet(_z) ==
     [] FAMILY = "storage" -> FamStorage(0)
 
 MCInit == \E c \in CfgSet(0) : InitWith(c)
-MCSpec == MCInit /\ [][Next]_vars
+AtOpaque == pc = "run" /\ g <= NG /\ (IF m <= Len(cfg.pipe[g]) THEN cfg.pipe[g][m].kind = "opaque" ELSE FALSE)
+MCNext == \/ Next
+          \/ (AtOpaque /\ \E after \in OpaqueAfter(bucket) : RunOpaque(after))
+          \/ (AtOpaque /\ OpaqueRaise)
+IsSession == FAMILY = "session"
+MCRestart == IsSession /\ Restart
+MCToggle  == IsSession /\ \E gg \in {2, 5}, mm \in 1 .. 2 : Toggle(gg, mm)
+MCSetArgs == IsSession /\ \E gg \in {2}, a \in {"p", "r"} : SetArgs(gg, 1, a)
+MCResched == IsSession /\ \E n \in 1 .. MAXSTEPS, nd \in BOOLEAN : Reschedule(TimesOf(n), 0, nd)
+MCSpec == MCInit /\ [][MCNext \/ MCRestart \/ MCToggle \/ MCSetArgs \/ MCResched]_vars
 
 \* Flux instance: with start offset the times are shifted so that T(k) - start
 \* is the composition; the invariants of C17 apply to this family only.
